@@ -977,7 +977,10 @@ def _new_expect(names):
     out = []
     for n in names:
       d = st['detour'].get(n, n)
-      out.append(('kfn', n) if d == 'kfn' else d)
+      if d in WRAPPERS and _write_blocked(st):
+        out.append(DONTCARE)       # the wrapper is a symbolic object
+      else:
+        out.append(('kfn', n) if d == 'kfn' else d)
     return tuple(out)
   return expect
 
@@ -1130,6 +1133,25 @@ def prepare():
     for v in VIEW_VALUES[keys[i]]:
       rec(i + 1, dict(cur, **{keys[i]: v}))
   rec(0, {})
+
+
+def match(got, exp):
+  """Equality where DONTCARE (also as a tuple element) matches anything."""
+  if isinstance(exp, str) and exp == DONTCARE:
+    return True
+  if isinstance(exp, tuple) and isinstance(got, tuple) and len(exp) == len(got) \
+      and any(isinstance(e, str) and e == DONTCARE for e in exp):
+    return all(match(g, e) for g, e in zip(got, exp))
+  return got == exp
+
+
+class ExpectEnv:
+  """Stand-in for the Env of another thread when computing expectations."""
+
+  def __init__(self, like, process_ok=False, foreign_process_de=True):
+    self.tid, self.process_ok, self.solo = -1, process_ok, False
+    self.foreign_process_de = foreign_process_de
+    self.fmt_d = like.fmt_d
 
 
 def applicable(obs, env, heavy):
